@@ -5,6 +5,7 @@ import (
 	"crypto"
 	stded "crypto/ed25519"
 	"crypto/sha512"
+	"math/big"
 	"strings"
 
 	"github.com/oasisprotocol/curve25519-voi/curve"
@@ -36,6 +37,7 @@ var (
 	c02verifies    = core.RegCounter("c02.single_verifications_of_produced_signatures")
 	c02batches     = core.RegCounter("c02.batch_verifications_of_produced_signatures")
 	c02wire        = core.RegCounter("c02.wire_alterations")
+	c02wirePair    = core.RegCounter("c02.wire_correlated_alterations_of_two_signatures")
 	c02wireSig     = core.RegCounter("c02.wire.signature_bit")
 	c02wireMsg     = core.RegCounter("c02.wire.message")
 	c02wireKey     = core.RegCounter("c02.wire.key")
@@ -644,6 +646,49 @@ func runC02(e *Env, r *core.Run) {
 				r.Fail("integrity", "altered-"+strings.ReplaceAll(what, " ", "-")+"-accepted", "after altering the %s the signature still verifies on %d of %d paths", what, acc, total)
 				return
 			}
+			// ---- correlated alteration of two tuples in flight: S+d on this signature, S-d on another signer's.
+			// Each is rejected alone; a batch must reject both (the sum of the defects is zero, so a batch
+			// equation whose per-entry coefficients are not independent would accept them together).
+			if c02companion != nil && t.W(4) == 0 && len(r.Main.Fails()) == 0 {
+				r.Count(c02wirePair)
+				d := int64(1 + t.W(7))
+				s1, s2 := clone(sig), clone(c02companion.sig)
+				c02AddToS(s1, d)
+				c02AddToS(s2, -d)
+				for i, p := range c02presets {
+					o1 := &ed25519.Options{Hash: v.hash(), Context: v.ctx, Verify: p}
+					o2 := &ed25519.Options{Verify: p}
+					a1, a2 := false, false
+					Guard(func() { a1 = ed25519.VerifyWithOptions(pub, msg, s1, o1) })
+					Guard(func() { a2 = ed25519.VerifyWithOptions(c02companion.pk, c02companion.msg, s2, o2) })
+					bv := ed25519.NewBatchVerifier()
+					if t.W(2) == 1 {
+						bv.ForceNoPublicKeyExpansion()
+					}
+					if t.W(2) == 1 {
+						bv.AddWithOptions(pub, msg, s1, o1)
+						bv.AddWithOptions(c02companion.pk, c02companion.msg, s2, o2)
+					} else {
+						bv.AddWithOptions(c02companion.pk, c02companion.msg, s2, o2)
+						bv.AddWithOptions(pub, msg, s1, o1)
+					}
+					bo := false
+					if t.W(2) == 1 {
+						Guard(func() { bo = bv.VerifyBatchOnly(NewDetReader(uint64(i) + 91)) })
+					}
+					ok, res := false, []bool(nil)
+					Guard(func() { ok, res = bv.Verify(NewDetReader(uint64(i) + 92)) })
+					anyRes := false
+					for _, x := range res {
+						anyRes = anyRes || x
+					}
+					r.Ev("correlated alteration d=%d %s: single %v %v batch-only %v batch %v %v", d, c02presetNames[i], a1, a2, bo, ok, res)
+					if a1 || a2 || bo || ok || anyRes {
+						r.Fail("integrity", "altered-pair-of-signatures-accepted", "S+%d on one signature and S-%d on another signer's (%s): accepted singly %v / %v, batch-only %v, batch %v %v - every one of these must be false", d, d, c02presetNames[i], a1, a2, bo, ok, res)
+						return
+					}
+				}
+			}
 		}
 	}
 	// ---- invalid options / lengths: error and nil signature, never a panic ----
@@ -739,4 +784,20 @@ func runC02F(e *Env, r *core.Run) {
 		}
 	}
 	r.Ev("enumerated 34 offsets x 3 delivery kinds x 3 chunk sizes")
+}
+
+// c02AddToS replaces the scalar half of a signature by S + d modulo the group order (a public parameter
+// of the curve), keeping it canonical.
+func c02AddToS(sig []byte, d int64) {
+	l, _ := new(big.Int).SetString("7237005577332262213973186563042994240857116359379907606001950938285454250989", 10)
+	le := make([]byte, 32)
+	for i := range le {
+		le[i] = sig[63-i]
+	}
+	x := new(big.Int).SetBytes(le)
+	x.Add(x, big.NewInt(d)).Mod(x, l)
+	be := x.FillBytes(make([]byte, 32))
+	for i := range be {
+		sig[32+i] = be[31-i]
+	}
 }
